@@ -439,6 +439,36 @@ func c14(r *rand.Rand, tier string, classFile string, tr *trace.Buf) {
 		g := strings.Join(w, " ")
 		phrases = append(phrases, " "+g, g+" ", g+"\n", strings.ReplaceAll(g, " ", "  "), strings.ReplaceAll(g, " ", "\t"),
 			strings.ToUpper(g), strings.Repeat(" ", n-1), strings.Repeat(" ", n), g+"\x00", "\xff\xfe"+g, g[:len(g)-1])
+		// some of the separators replaced by other white space (what a decoder that counts one way and
+		// splits another way trips over)
+		for _, k := range []int{1, 2, 3, 4} {
+			for _, ws := range []string{"\n", "\t", "\r\n", "  "} {
+				parts := append([]string{}, w...)
+				sep := make([]string, n-1)
+				for i := range sep {
+					sep[i] = " "
+				}
+				for q := 0; q < k; q++ {
+					sep[r.Intn(n-1)] = ws
+				}
+				var sb strings.Builder
+				for i, x := range parts {
+					if i > 0 {
+						sb.WriteString(sep[i-1])
+					}
+					sb.WriteString(x)
+				}
+				phrases = append(phrases, sb.String())
+			}
+		}
+		// unknown tokens that sort before the first, after the last and between list words
+		for _, tok := range []string{"a", "aa", "zz", "zzzzzz", "zurick", "zurichz", "z\xff", "{", "~", "\xff", "\x00", "A", "Z", "aback0", "zurich ", "0", "-"} {
+			for _, p := range []int{0, n - 1} {
+				c := append([]string{}, w...)
+				c[p] = tok
+				phrases = append(phrases, strings.Join(c, " "))
+			}
+		}
 		for _, p := range []int{0, n / 2, n - 1} {
 			c := append([]string{}, w...)
 			c[p] = "notaword"
